@@ -538,6 +538,42 @@ def real_datetime_family():
                     if x.tzinfo is None else p == x)
             check('dt/parse_isotime-inverts-isoformat', same,
                   detail=(x.isoformat(), str(p)))
+    # marshalling at the ends of the representable range, and in a process
+    # whose local zone is not UTC (nothing may depend on the local zone)
+    import os as _os
+    import time as _time
+    ends = [datetime.datetime(1, 1, 1, 0, 0, 0, 1),
+            datetime.datetime(9999, 12, 31, 23, 59, 59, 999999),
+            datetime.datetime(2021, 3, 14, 6, 14, 0, 5)]
+    old_tz = _os.environ.get('TZ')
+    for zone in (None, 'America/New_York', 'Asia/Kolkata'):
+        if zone is not None:
+            _os.environ['TZ'] = zone
+            _time.tzset()
+        try:
+            for n0 in ends:
+                for x in (n0, n0.replace(tzinfo=UTC),
+                          n0.replace(tzinfo=zoneinfo.ZoneInfo('UTC'))):
+                    try:
+                        y = T.unmarshall_time(T.marshall_now(x))
+                        okay = (y.replace(tzinfo=None)
+                                == x.replace(tzinfo=None)
+                                and (y.tzinfo is None) == (x.tzinfo is None)
+                                and (x.tzinfo is None or y.utcoffset()
+                                     == datetime.timedelta(0)))
+                    except Exception as e:
+                        okay = False
+                        y = repr(e)
+                    check('dt/unmarshall-inverts-marshall-at-the-ends-and-'
+                          'in-any-local-zone', okay,
+                          detail=(zone, str(x), str(y)))
+        finally:
+            if zone is not None:
+                if old_tz is None:
+                    _os.environ.pop('TZ', None)
+                else:
+                    _os.environ['TZ'] = old_tz
+                _time.tzset()
     # very large deltas with a microsecond component (exactness must not
     # depend on a float round trip)
     for days, us in ((365 * 3000, 1), (365 * 9000, 999999), (3000000, 7),
